@@ -258,32 +258,52 @@ func ruleR06_3(w *World, r *Report) {
 			break
 		}
 		// both live in the commit function: their conditions relative to its entry are compared
-		if e.n != upd.n {
-			okEnd = false
-			break
-		}
+		// the store may live in another (new) function than the update: it must run whenever its own function runs,
+		// except for a read-only handler, and the call that leads to it must come before the update on every path
+		anc := d.lca(e.n, upd.n)
 		pe, ok1 := d.localPaths(e.n, e.in, nil)
-		pu, ok2 := d.localPaths(upd.n, upd.in, nil)
-		common := map[string]int{}
-		for _, p := range pu {
-			seen := map[string]bool{}
-			for _, l := range p.strs {
-				if !seen[l] {
-					seen[l] = true
-					common[l]++
-				}
-			}
-		}
-		guarded := ok1 && ok2 && len(pe) > 0
+		var pu []litPath
+		ok2 := true
+		guarded := ok1 && len(pe) > 0
 		for _, p := range pe {
 			for _, l := range p.strs {
-				if common[l] == len(pu) {
-					continue
-				}
 				if l != "!$0.isReadOnly" {
 					guarded = false
 				}
 			}
+		}
+		site := e
+		for site.n != anc && site.n.parent != nil {
+			site = dins{site.n.parent, site.n.site.(ssa.Instruction)}
+		}
+		if site.n == anc && site != e {
+			guarded = guarded && d.dominates(site, upd)
+		} else if site == e {
+			// same function as the common ancestor: compare with the conditions of the update there
+			pu, ok2 = d.pathsFrom(anc, upd, nil)
+			common := map[string]int{}
+			for _, p := range pu {
+				seen := map[string]bool{}
+				for _, l := range p.strs {
+					if !seen[l] {
+						seen[l] = true
+						common[l]++
+					}
+				}
+			}
+			pe2, ok3 := d.pathsFrom(anc, e, nil)
+			guarded = ok2 && ok3 && len(pe2) > 0
+			for _, p := range pe2 {
+				for _, l := range p.strs {
+					if common[l] == len(pu) {
+						continue
+					}
+					if l != "!$0.isReadOnly" {
+						guarded = false
+					}
+				}
+			}
+			pe = pe2
 		}
 		okEnd = guarded
 		if !guarded {
